@@ -354,7 +354,7 @@ func (s *Script) zero(t types.Type) string {
 	case *types.Slice:
 		return "(mk_slice 0 0 0 0)"
 	case *types.Array:
-		return "((as const " + s.sortOf(t) + ") " + s.zero(u.Elem()) + ")"
+		return s.constArr(s.sortOf(t), s.zero(u.Elem()))
 	case *types.Struct:
 		fs := make([]string, u.NumFields())
 		for i := range fs {
@@ -363,6 +363,25 @@ func (s *Script) zero(t types.Type) string {
 		return s.mkStruct(t, fs)
 	}
 	return "0"
+}
+
+// constArr returns an array all of whose elements are val. Solvers accept
+// `(as const ...)` only for literal values; values mentioning uninterpreted
+// constants (the empty string of the abstract string sort) get a fresh array
+// constant with a quantified definition instead.
+func (s *Script) constArr(arrSort, val string) string {
+	if !strings.Contains(val, "str_") {
+		return "((as const " + arrSort + ") " + val + ")"
+	}
+	key := "carr:" + arrSort + ":" + val
+	if n, ok := s.sorts[key]; ok {
+		return n
+	}
+	n := fmt.Sprintf("carr_%d", len(s.sorts))
+	s.sorts[key] = n
+	s.prelude = append(s.prelude, fmt.Sprintf("(declare-const %s %s)", n, arrSort),
+		fmt.Sprintf("(assert (forall ((ci! Int)) (! (= (select %s ci!) %s) :pattern ((select %s ci!)))))", n, val, n))
+	return n
 }
 
 func (s *Script) strLit(x string) string {
